@@ -9,9 +9,9 @@ git diff -- src > /tmp/seed_$NAME.diff
 [ -s /tmp/seed_$NAME.diff ] || { echo "no source change in $WT"; exit 2; }
 run() { (cd "$WT" && PYTHONPATH="$WT/src" PYTHONWARNINGS=ignore /venv/bin/python "$@"); }
 run _seed/demo.py > /tmp/seed_$NAME.with.log 2>&1; RC_WITH=$?
-git stash -q -- src
+git apply -R /tmp/seed_$NAME.diff      # (never git stash: refs/stash is shared by all worktrees)
 run _seed/demo.py > /tmp/seed_$NAME.without.log 2>&1; RC_WITHOUT=$?
-git stash pop -q
+git apply /tmp/seed_$NAME.diff
 PYT=$(cd "$WT" && PYTHONPATH="$WT/src" /venv/bin/python -m pytest -q -p no:cacheprovider --timeout=900 --continue-on-collection-errors 2>&1 | tail -1)
 echo "demo with change rc=$RC_WITH (expect 1); without rc=$RC_WITHOUT (expect 0); pytest: $PYT"
 mkdir -p /verif/seeded/$NAME
